@@ -274,6 +274,7 @@ pub struct PicksMon {
     pub prev_statuses: Vec<u8>,
     pub prev_assigned: Vec<Option<usize>>,
     pub prev_choked: Vec<bool>,
+    pub gone: Vec<bool>,
 }
 
 fn code(s: &Status) -> u8 {
@@ -291,7 +292,7 @@ impl Scenario for Picks {
         format!("picks-n{}-p{}-m{:?}", self.n, self.pieces, self.masks)
     }
     fn cfg(&self) -> WorldCfg {
-        WorldCfg { torrent: Torrent::new("t", 1, &[("f", self.pieces)], true), have: vec![], peers: vec![], gated: false }
+        WorldCfg { torrent: Torrent::new("t", 1, &[("f", self.pieces)], true), have: vec![], peers: vec![], gated: false, stale: vec![] }
     }
     fn explore_choices(&self) -> bool {
         true
@@ -302,11 +303,15 @@ impl Scenario for Picks {
         }
         mon.advertised = vec![vec![false; self.pieces]; self.n];
         mon.bitfields = vec![0; self.n];
+        mon.gone = vec![false; self.n];
         self.remember(w, mon);
     }
     fn enabled(&self, _w: &World, mon: &PicksMon, _depth: usize) -> Vec<String> {
         let mut e = vec![];
         for k in 0..self.n {
+            if mon.gone[k] {
+                continue;
+            }
             if mon.bitfields[k] < 2 {
                 for m in &self.masks {
                     e.push(format!("B{}:{}", k, m));
@@ -317,9 +322,15 @@ impl Scenario for Picks {
                     e.push(format!("H{}:{}", k, i));
                 }
             }
+            if mon.gone[k] {
+                continue;
+            }
             e.push(format!("U{}", k));
             if !mon.prev_choked[k] {
                 e.push(format!("C{}", k));
+            }
+            if mon.gone.iter().filter(|g| !**g).count() > 1 {
+                e.push(format!("K{}", k));
             }
         }
         e
@@ -335,6 +346,7 @@ impl Scenario for Picks {
             "H" => Ev::MgrHave(k, arg.unwrap()),
             "U" => Ev::MgrUnchoke(k),
             "C" => Ev::MgrChoke(k),
+            "K" => Ev::MgrKill(k),
             _ => panic!("bad symbol"),
         }]
     }
@@ -357,13 +369,31 @@ impl Scenario for Picks {
                     }
                 }
                 "H" => mon.advertised[k][arg.unwrap()] = true,
+                "K" => {
+                    mon.gone[k] = true;
+                    mon.advertised[k] = vec![false; self.pieces];
+                }
                 "U" => {
                     // a pick happens when the peer had no live assignment
                     let had_live_assignment = mon.prev_assigned[k].is_some() && !mon.prev_choked[k];
                     if !had_live_assignment {
                         let mut peers = vec![mon.advertised[k].clone()];
-                        peers.extend((0..self.n).filter(|j| *j != k).map(|j| mon.advertised[j].clone()));
-                        let st = State { statuses: mon.prev_statuses.clone(), peers, digits: vec![] };
+                        peers.extend((0..self.n).filter(|j| *j != k && !mon.gone[*j]).map(|j| mon.advertised[j].clone()));
+                        // "being fetched from another peer" is a fact about the other connections
+                        // (a connected peer that does not choke us holds the assignment), not about
+                        // the manager's reservation counter, which is what is under test
+                        let statuses: Vec<u8> = (0..self.pieces)
+                            .map(|i| {
+                                if mon.prev_statuses[i] == 3 {
+                                    3
+                                } else if (0..self.n).any(|j| j != k && !mon.gone[j] && mon.prev_assigned[j] == Some(i) && !mon.prev_choked[j]) {
+                                    1
+                                } else {
+                                    0
+                                }
+                            })
+                            .collect();
+                        let st = State { statuses, peers, digits: vec![] };
                         let reply = w.mgr_reply.clone().unwrap_or_default();
                         let pick: Option<usize> = reply.split("piece_index: ").nth(1).and_then(|r| r.split(',').next()).and_then(|v| v.trim().parse().ok());
                         if let Some((class, why)) = judge(&st, pick) {
@@ -378,7 +408,7 @@ impl Scenario for Picks {
         verdict
     }
     fn key(&self, w: &World, mon: &PicksMon) -> String {
-        format!("{} adv={:?} bf={:?}", w.session_key(), mon.advertised, mon.bitfields)
+        format!("{} adv={:?} bf={:?} gone={:?}", w.session_key(), mon.advertised, mon.bitfields, mon.gone)
     }
 }
 
@@ -434,7 +464,7 @@ pub fn run(ctx: &Ctx) -> Outcome {
     o.set("evaluations", json!(evals));
     o.set("distinct_nontrivial", json!(nontrivial));
     o.set("parts", Value::Array(parts));
-    o.set("rule", json!("exhaustive part: n pieces, every status vector over {Missing, Reserved(1), Reserved(2), Have}, the asked peer plus the other peers with every advertised set, and every digit vector of the real Fisher-Yates shuffle (= every tie-break permutation); threshold part: n in 9..=12, every (have, reserved, missing) split in two layouts, 3 peers with advertised sets from {all, none, only missing, only reserved, single piece x3, every second}, every candidate brought to the front of the shuffle once. Each (state, tie-break) is one call of the real choose_piece_index; states = transitions = evaluations; non-trivial = more than one acceptable pick. History part (picks-*): BFS over the commands B<k>:<mask> (bitfield, at most twice), H<k>:<i> (have), U<k> (unchoke, answered on a live reply channel), C<k> (choke) of 2..3 manager-only peers on a 3-piece and a 12-piece torrent: whenever an unchoke makes the manager pick, the pick must be acceptable with respect to what the peers really advertised (the harness's own record of their bitfields and haves) and the statuses before the command."));
+    o.set("rule", json!("exhaustive part: n pieces, every status vector over {Missing, Reserved(1), Reserved(2), Have}, the asked peer plus the other peers with every advertised set, and every digit vector of the real Fisher-Yates shuffle (= every tie-break permutation); threshold part: n in 9..=12, every (have, reserved, missing) split in two layouts, 3 peers with advertised sets from {all, none, only missing, only reserved, single piece x3, every second}, every candidate brought to the front of the shuffle once. Each (state, tie-break) is one call of the real choose_piece_index; states = transitions = evaluations; non-trivial = more than one acceptable pick. History part (picks-*): BFS over the commands B<k>:<mask> (bitfield, at most twice), H<k>:<i> (have), U<k> (unchoke, answered on a live reply channel), C<k> (choke), K<k> (disconnect) of 2..3 manager-only peers on a 3-piece and a 12-piece torrent: whenever an unchoke makes the manager pick, the pick must be acceptable with respect to what the peers really advertised (the harness's own record of their bitfields and haves) and to which pieces are owned / held by another connected, unchoking peer before the command (read from the peers' assignments, not from the reservation counters)."));
     o.set("samples", Value::Array(samples));
     o.set("exhaustive", json!(true));
     o.assume("the asked peer holds no assignment of its own (reservations belong to other peers); the pick is observed at choose_piece_index, which every command handler (unchoke, bitfield, piece done/cancel, not-interested) calls");
